@@ -145,7 +145,7 @@ func init() {
 				got := d.Send("histextract", 1)[0]
 				if got != impl {
 					bad(fmt.Sprintf("histogram period %d (sampled=%v, %d observations)", p, sampled, n), canonN(400, []byte(impl)), canonN(400, []byte(got)))
-					if len(rep.Divergences) > 3 {
+					if enoughDivergences(rep, 3) {
 						break
 					}
 				}
